@@ -15,10 +15,10 @@ import (
 
 // finding is one attributed (or unattributed) worker death.
 type finding struct {
-	key     string
-	what    string
-	replay  map[string]any
-	minID   int
+	key      string
+	what     string
+	replay   map[string]any
+	minID    int
 	count    int
 	attrib   bool
 	culprits []string
@@ -63,7 +63,7 @@ func (d *driver) replayOf(e *Exchange, ci crashInfo) map[string]any {
 	}
 	return map[string]any{
 		"listener": e.Seed.Listener, "seed": e.Seed.Name, "transport": e.Seed.Transport, "port_index": e.Seed.Port,
-		"mutation": e.Mut.String(), "exchange_id": e.ID, "messages": msgs, "then": "half-close / close",
+		"mutation": e.Mut.String(), "exchange_id": e.ID, "tier": d.r.Tier, "messages": msgs, "then": "half-close / close",
 		"crash": ci.Text, "exit": ci.Exit,
 		"how": "start the harness binary with -worker -base <port> -dir <tmpdir>, send the messages in order to 127.0.0.1:<port+port_index>" +
 			map[bool]string{true: "; SRT: bytes 44..47 of the conclusion are replaced by the cookie of the server's induction answer before the mutation is applied", false: ""}[e.Seed.Transport == tSRT],
@@ -189,6 +189,11 @@ func (l *lane) runSet2(set []*Exchange, o execOpts, count bool) (bool, []bool) {
 			defer wg.Done()
 			defer func() { <-mySem }()
 			cl, cls := runExchange(e, w.ports, o)
+			for attempt := 0; attempt < 3 && strings.Contains(cl, "dial-error") && w.alive(); attempt++ {
+				// the connection could not even be established (overload): deliver again
+				time.Sleep(time.Duration(100*(attempt+1)) * time.Millisecond)
+				cl, cls = runExchange(e, w.ports, o)
+			}
 			closed[idx] = cls
 			doneAt[idx] = time.Now()
 			if count {
@@ -253,7 +258,7 @@ func (l *lane) recordUnattributed(set []*Exchange, ci crashInfo, why string) {
 		listener = "unattributed:" + set[0].Seed.Listener
 	}
 	l.d.record(ci.key(listener), fmt.Sprintf("worker died (%s: %s at %s) while a set of %d exchanges was delivered; %s",
-		ci.Kind, ci.Msg, ci.Site, len(set), why), map[string]any{"crash": ci.Text, "exchange_ids": ids, "first": set[0].String()}, set[0].ID, false)
+		ci.Kind, ci.Msg, ci.Site, len(set), why), map[string]any{"crash": ci.Text, "exchange_ids": ids, "first": set[0].String(), "tier": l.d.r.Tier}, set[0].ID, false)
 }
 
 // findFast returns the exchanges of set that kill a fresh worker on their own (twice) when delivered with the short
@@ -639,6 +644,10 @@ func driverMain() {
 	r.Exhaustive = !d.timedOut.Load() && skipped == 0 && d.culprits.Load() < maxCulprits
 	if d.timedOut.Load() {
 		r.Note("internal deadline reached: %d exchanges not run", skipped)
+	}
+	if dialErrs > 0 {
+		r.Exhaustive = false
+		r.Note("%d exchanges could not be delivered (connection not established after 4 attempts)", dialErrs)
 	}
 	if dialErrs > total/50 {
 		harnessFail("%d of %d exchanges could not connect to the worker (overload?); the run is not conclusive", dialErrs, total)
